@@ -187,6 +187,7 @@ def layout(draw, max_n=64, max_parts=5, backends=('flat', 'flat', 'npy', 'array'
         lay['parts'] = draw(composition(n, max_parts))
         lay['offset'] = draw(st.sampled_from([0, 0, 1, 2, 7, 16, 31]))
         lay['ext'] = draw(st.sampled_from(['.dat', '.bin', '.raw']))
+        lay['names'] = draw(st.sampled_from(['asc', 'desc', 'num']))
     else:
         lay['parts'] = [n]
         lay['offset'] = 0
@@ -238,7 +239,7 @@ class OpenReader(object):
                                                    sample_rate=self.sample_rate)
                 else:
                     paths = rec.write_flat(d, self.A, lay['parts'], lay['offset'],
-                                           ext=lay.get('ext', '.dat'))
+                                           ext=lay.get('ext', '.dat'), order=lay.get('names', 'asc'))
                     arg = paths if (len(paths) > 1 or lay.get('salt', 0) % 2) else paths[0]
                     self.reader = self.must_return(
                         'get_ephys_reader', get_ephys_reader, arg, n_channels=lay['nch'],
